@@ -226,6 +226,10 @@ static uint64_t pick_ref_typed(uint32_t a, uint32_t variant, int want)
 	}
 }
 
+/* what lies behind the terminator of a path string handed to the library: zeros for the history under test, a non-zero pattern for
+ * the fresh-reader reference. A correct library never looks there; one that does gives different answers, reproducibly. */
+static uint8_t path_fill;
+
 static res_t do_op(rset_t *s, const op_t *op)
 {
 	res_t r = { -9999, H0 };
@@ -272,6 +276,7 @@ static res_t do_op(rset_t *s, const op_t *op)
 		   so far (documented history dependence, made visible by damaged images) - the plain reader is used for the verdict */
 		dr = s->dr;
 		if (!dr || !npaths) break;
+		memset(buf, path_fill, sizeof(buf));
 		snprintf(buf, sizeof(buf), "%s%s", paths[op->a % npaths], (op->c % 5 == 4) ? "/nonexistent" : "");
 		r.status = sqfs_dir_reader_resolve_path(dr, buf, NULL, &out);
 		if (r.status == 0)
@@ -483,7 +488,9 @@ static res_t reference(const op_t *op, long *fresh_sets)
 	}
 	rset_t f;
 	rset_create(&f, NULL, NULL, 0, NULL);
+	path_fill = 0x5A;
 	res_t r = do_op(&f, op);
+	path_fill = 0;
 	rset_destroy(&f);
 	(*fresh_sets)++;
 	if (!memo[i].used) {
